@@ -27,7 +27,7 @@ from mirse import model_async as A
 PROP = 'C14'
 ERR_KINDS = ['InvalidClientTokenId', 'ExpiredToken', 'SignatureDoesNotMatch', 'IncompleteSignature']
 PRE_PROVIDER = ['path', 'query', 'algorithm', 'syntax', 'missing_credential', 'missing_signature', 'missing_signedheaders', 'missing_date',
-                'host', 'required', 'date', 'expired', 'future', 'arity', 'scope_date', 'scope_region', 'scope_service', 'scope_term']
+                'host', 'required', 'date', 'expired', 'future', 'arity', 'arity_more', 'scope_date', 'scope_region', 'scope_service', 'scope_term']
 
 
 def shapes(tier, seed):
